@@ -646,11 +646,14 @@ func (vfs *OrefaFS) OpenFile(name string, flag int, perm fs.FileMode) (avfs.File
 		}
 	}
 
+	fullPath, _ := vfs.Abs(name)
+
 	f := &OrefaFile{
 		vfs:      vfs,
 		nd:       child,
 		openMode: om,
 		name:     name,
+		absPath:  fullPath,
 	}
 
 	return f, nil
